@@ -73,7 +73,16 @@ pub fn gen_case(rng: &mut Rng, _thorough: bool, case: u64) -> J {
     let rows: Vec<&str> = csv.lines().skip(1).collect();
     let row_objs: Vec<J> = rows.iter().map(|r| { let last = r.rsplit(';').next().unwrap_or(""); if last.is_empty() { J::Null } else { last.parse::<f64>().map(|x| json!(order_code(x))).unwrap_or(json!("unparsable")) } }).collect();
     let row_inputs: Vec<String> = rows.iter().map(|r| { let f: Vec<&str> = r.split(';').collect(); if f.len() >= 10 { canon(&serde_json::from_str::<J>(&f[7..f.len() - 2].join(";")).unwrap_or(J::Null)) } else { String::new() } }).collect();
-    let best_file = std::fs::read_to_string(dir.join("best.json")).ok().and_then(|t| serde_json::from_str::<J>(&t).ok()).map(|j| canon(&j));
+    let read_best = || std::fs::read_to_string(dir.join("best.json")).ok().and_then(|t| serde_json::from_str::<J>(&t).ok()).map(|j| canon(&j));
+    let mut best_file = read_best();
+    // diagnostic: a file that is not (yet) valid JSON right after the return is read once more a moment later; the
+    // driver judges the final content and reports "late" as a coverage tag
+    let mut best_late = false;
+    if best_file.is_none() && !row_objs.iter().all(|x| x.is_null()) {
+        std::thread::sleep(Duration::from_millis(300));
+        best_file = read_best();
+        best_late = best_file.is_some();
+    }
     let _ = std::fs::remove_dir_all(&dir);
     let ret = match &res {
         Ok(r) => json!({"ok": {"best": order_code(r.best_seen.obj_func_val), "value": canon(&r.best_seen.value), "acc": r.num_obj_func_eval_completed, "rej": r.num_obj_func_eval_rejected}}),
@@ -84,5 +93,5 @@ pub fn gen_case(rng: &mut Rng, _thorough: bool, case: u64) -> J {
     };
     json!({"mode": "run", "criteria": crits.iter().map(|c| c.0.clone()).collect::<Vec<_>>(), "nc": nc, "threaded": threaded, "barrier": barrier, "failAt": fail_at,
            "calls": calls.load(Ordering::SeqCst), "maxLive": max_live.load(Ordering::SeqCst), "ret": ret,
-           "csvRows": rows.len(), "rowObjs": row_objs, "rowInputs": row_inputs, "bestFile": best_file})
+           "csvRows": rows.len(), "rowObjs": row_objs, "rowInputs": row_inputs, "bestFile": best_file, "bestLate": best_late})
 }
